@@ -65,7 +65,40 @@ def run(ctx):
 # ------------------------------------------------------------------------------------------ T1
 
 def t1(ctx, facts, rid="T1"):
-    r = ctx.rule(rid, "near attack tables equal the geometric definition")
+    """attack::king / knight / pawn, evaluated for every argument, are the geometric attack sets; where the build's near-attack tables
+    exist under their usual names they are compared entry by entry as well (a renamed or merged table is not an alarm: the functions
+    the queries call are what is decided)."""
+    from .machine import run_function, Stuck
+    from .teval import Unsupported, Panic
+    r = ctx.rule(rid, "near attacks equal the geometric definition: attack::king/knight/pawn on every argument, and the build's tables entry by entry")
+    fspecs = [
+        ("owlchess::attack::king", [(None, lambda s: geom.leaper(s, geom.KING_DELTAS))]),
+        ("owlchess::attack::knight", [(None, lambda s: geom.leaper(s, geom.KNIGHT_DELTAS))]),
+        ("owlchess::attack::pawn", [(0, geom.white_pawn_attacks), (1, geom.black_pawn_attacks)]),
+    ]
+    for fname, variants in fspecs:
+        fn = facts.fns.get(fname)
+        if fn is None:
+            r.anchor_missing(fname)
+            continue
+        for colour, ref in variants:
+            bad = None
+            n = 0
+            for sq in range(64):
+                try:
+                    got = run_function(facts, fn, {1: sq} if colour is None else {1: colour, 2: sq})[0]
+                except (Stuck, Unsupported, Panic) as ex:
+                    bad = (sq, "not evaluable: %s" % str(ex)[:80])
+                    break
+                if got != ref(sq):
+                    bad = (sq, "%#018x" % got if isinstance(got, int) else repr(got)[:40])
+                    break
+                n += 1
+            label = fname.split("::")[-1] + ("" if colour is None else "(%s)" % ("White", "Black")[colour])
+            r.check(bad is None, "attack::" + label,
+                    "attack::%s at %s is %s but the geometric definition gives %#018x" % (
+                        label, geom.name(bad[0]) if bad else "", bad[1] if bad else "", ref(bad[0]) if bad else 0),
+                    site=ctx.site(fn), what="attack::%s on all %d squares" % (label, n))
     specs = [
         ("owlchess::attack::KING_ATTACKS", lambda s: geom.leaper(s, geom.KING_DELTAS)),
         ("owlchess::attack::KNIGHT_ATTACKS", lambda s: geom.leaper(s, geom.KNIGHT_DELTAS)),
@@ -74,7 +107,7 @@ def t1(ctx, facts, rid="T1"):
     ]
     for name, ref in specs:
         if name not in facts.consts:
-            r.anchor_missing(name)
+            r.note("table %s not present under this name (the functions above are what the queries read)" % name.split("::")[-1])
             continue
         tbl = facts.table_u64(name)
         if len(tbl) != 64:
@@ -85,41 +118,7 @@ def t1(ctx, facts, rid="T1"):
             r.check(tbl[sq] == want, "%s[%s]" % (name.split("::")[-1], geom.name(sq)),
                     "%s[%s] = %#018x but the geometric definition gives %#018x" % (name, geom.name(sq), tbl[sq], want),
                     what="%s[%s]" % (name.split("::")[-1], geom.name(sq)))
-    # readers: attack::king / knight / pawn read the table of their name at the square argument
-    b = Builder(facts)
-    for fn_name, tbl in (("owlchess::attack::king", "owlchess::attack::KING_ATTACKS"),
-                         ("owlchess::attack::knight", "owlchess::attack::KNIGHT_ATTACKS")):
-        fn = facts.fns.get(fn_name)
-        if fn is None:
-            r.anchor_missing(fn_name)
-            continue
-        e = N(b.place(fn.body, {"l": 0, "p": []}))
-        want = ("tbl", ("named", tbl), ("param", 1, fn.body.names.get(1, "_1")))
-        r.check(e == want, fn_name + "/reader", "%s does not read %s at its square argument: %s" % (fn_name, tbl, show(e)),
-                site=ctx.site(fn), what=fn_name + " reads " + tbl.split("::")[-1])
-    fn = facts.fns.get("owlchess::attack::pawn")
-    if fn is None:
-        r.anchor_missing("owlchess::attack::pawn")
-    else:
-        pe = PathEval(facts)
-        seen = {}
-        for p in pe.enumerate_paths(fn.body):
-            res = pe.run(fn.body, p)
-            if res.end != "ret":
-                continue
-            color = None
-            for c in res.conds:
-                if N(c[0]) == ("discr", ("param", 1, fn.body.names.get(1, "_1"))):
-                    color = c[1]
-            seen[color] = N(res.ret)
-        for color, tbl in ((0, "owlchess::attack::WHITE_PAWN_ATTACKS"), (1, "owlchess::attack::BLACK_PAWN_ATTACKS")):
-            want = ("tbl", ("named", tbl), ("param", 2, fn.body.names.get(2, "_2")))
-            r.check(seen.get(color) == want, "attack::pawn/color%d" % color,
-                    "attack::pawn(%s, sq) does not read %s[sq]: %s" % (["White", "Black"][color], tbl, show(seen.get(color))),
-                    site=ctx.site(fn), what="attack::pawn(%s) reads %s" % (["White", "Black"][color], tbl.split("::")[-1]))
 
-
-# ------------------------------------------------------------------------------------------ T2
 
 def t2(ctx, facts):
     r = ctx.rule("T2", "magic tables: mask lemma, every mask subset -> exact sliding attack, pointer bound")
